@@ -153,7 +153,10 @@ def make_model(eng, clsname, hint, fresh_empty=False):
         eng.assume(nv.e >= 0)
         o.attrs["_num_binary_variables"] = nv
         eng.nfresh += 1
-        o.attrs["_variables"] = eng.alloc(SetVal(z3.Const("%s_vars!%d" % (hint, eng.nfresh), z3.ArraySort(T.Label, T.Bool)), nv.e))
+        mem = z3.Const("%s_vars!%d" % (hint, eng.nfresh), z3.ArraySort(T.Label, T.Bool))
+        card = z3.Int("%s_varscard!%d" % (hint, eng.nfresh))
+        eng.facts.add(z3.And(card >= 0, card == T.CARD(mem)))
+        o.attrs["_variables"] = eng.alloc(SetVal(mem, card))
     o.attrs["_name"] = None
     if eng.db.is_subclass(cls, "BO"):
         if fresh_empty:
